@@ -257,11 +257,12 @@ deriving Repr, Inhabited
 
 inductive Outcome
   | ok | dup | later | tooDeep | rejected (e : Err) | moveFailed | panic (s : String)
+  | collision    -- another block sits under the block's own 8-byte `BlockIndex` key (only `deliverIdx` returns it)
 deriving Repr, Inhabited
 
 def Outcome.name : Outcome → String
   | .ok => "ok" | .dup => "dup" | .later => "later" | .tooDeep => "toodeep"
-  | .rejected e => "err:" ++ e.name | .moveFailed => "movefailed" | .panic s => s
+  | .rejected e => "err:" ++ e.name | .moveFailed => "movefailed" | .panic s => s | .collision => "index-collision"
 
 /-- fuel for one delivery. Between two failures ParseTillBlock connects at most (tree depth) ≤ #nodes blocks, every
     failure deletes at least one node and costs three more calls, so `(#nodes+3)²` is enough
@@ -291,20 +292,52 @@ def commitBlock (c : Chain) (b : Block) (height : Nat) : Chain × Outcome :=
       else (c1, .ok)
     | _, _ => (c1, .panic "panic:nil-node")
 
-/-- `Chain.CheckBlock` (tree part) + `Chain.AcceptBlock` -/
+/-- the rest of a delivery once the parent node `p` and the tip node `t` have been found: the fork-depth rule of
+    PreCheckBlock, AcceptHeader, CommitBlock -/
+def deliverAt (c : Chain) (b : Block) (p t : Node) : Chain × Outcome :=
+  let height := p.height + 1
+  if p.id != t.id && t.height ≥ height + MovingCheckpointDepth then (c, .tooDeep) else
+  -- AcceptHeader
+  let n : Node := { id := b.id, parent := p.id, height := height, bits := b.bits, childs := [], txCount := 0 }
+  let c1 := modNode c p.id fun q => { q with childs := q.childs ++ [b.id] }
+  let c2 := { c1 with nodes := c1.nodes ++ [n] }
+  commitBlock c2 b height
+
+/-- `Chain.CheckBlock` (tree part) + `Chain.AcceptBlock`, blocks looked up by their WHOLE id (= hash). This is the
+    definition the theorems are about; what the code does — look-ups by the 8-byte key followed by the comparison of
+    the whole hash — is `deliverIdx` below, which the oracle runs and which equals `deliver` whenever no two blocks
+    share an 8-byte key (`Proofs/C06Idx`). -/
 def deliver (c : Chain) (b : Block) : Chain × Outcome :=
   if (getNode c b.id).isSome then (c, .dup) else
   match getNode c b.parent, getNode c c.tip with
   | none, _ => (c, .later)
   | _, none => (c, .panic "panic:nil-node")
-  | some p, some t =>
-    let height := p.height + 1
-    if p.id != t.id && t.height ≥ height + MovingCheckpointDepth then (c, .tooDeep) else
-    -- AcceptHeader
-    let n : Node := { id := b.id, parent := p.id, height := height, bits := b.bits, childs := [], txCount := 0 }
-    let c1 := modNode c p.id fun q => { q with childs := q.childs ++ [b.id] }
-    let c2 := { c1 with nodes := c1.nodes ++ [n] }
-    commitBlock c2 b height
+  | some p, some t => deliverAt c b p t
+
+/-- `Uint256.BIdx()` of an id: ids are whole block hashes read as 64 hex digits, first byte first; the key of
+    `Chain.BlockIndex` is the first 8 bytes. -/
+def bidx (id : Nat) : Nat := id / 2 ^ 192
+
+/-- `ch.BlockIndex[BIdx(id)]`: the entry (if any) under the 8-byte key of `id` -/
+def lookupIdx (c : Chain) (id : Nat) : Option Node := c.nodes.find? (fun n => bidx n.id == bidx id)
+
+/-- the parent as PreCheckBlock / AcceptHeader obtain it since fix 533896f3: the entry under the 8-byte key of the
+    header's previous-block field, kept only if its WHOLE hash is that field
+    (`!ok || !bytes.Equal(prevblk.BlockHash.Hash[:], bl.ParentHash())`) -/
+def parentIdx (c : Chain) (pid : Nat) : Option Node := (lookupIdx c pid).filter (fun p => p.id == pid)
+
+/-- `Chain.CheckBlock` (tree part) + `Chain.AcceptBlock` AS THE CODE LOOKS BLOCKS UP: the "already in" test and the
+    parent look-up go through the 8-byte `BlockIndex` key and then compare the whole hash (fix 533896f3). A block whose
+    own key is taken by another block is refused (`collision`); a previous-block field that shares only its key with
+    a known block is an unknown parent (`later`). -/
+def deliverIdx (c : Chain) (b : Block) : Chain × Outcome :=
+  match lookupIdx c b.id with
+  | some n => if n.id == b.id then (c, .dup) else (c, .collision)
+  | none =>
+    match parentIdx c b.parent, getNode c c.tip with
+    | none, _ => (c, .later)
+    | _, none => (c, .panic "panic:nil-node")
+    | some p, some t => deliverAt c b p t
 
 def init (rootId rootBits : Nat) : Chain :=
   { nodes := [{ id := rootId, parent := rootId, height := 0, bits := rootBits, childs := [], txCount := 0 }],
